@@ -4,9 +4,9 @@
     2. C04 monitor (Model/Percolator.lean) on the protocol-relevant projection of the events
     3. history oracles at `quiesce` / `audit …` / snapshot API calls (C01, C02, C03, C05, C06)
 -/
-import ClientGoVerif.Model.MvccRpc
+import ClientGoVerif.Model.MvccFull
 import ClientGoVerif.Model.Percolator
-open CGV CGV.Mvcc CGV.MvccProto CGV.MvccRpc CGV.Perc
+open CGV CGV.Mvcc CGV.MvccProto CGV.MvccRpc CGV.MvccFull CGV.Perc
 
 /-- one read of the API-level history -/
 structure ReadRec where
@@ -24,6 +24,7 @@ structure Pending where
 
 structure JState where
   store : Store := {}
+  full : Option FStore := none                -- profile `full`: the store the client ran against is the Lean model itself
   mon : MState := {}
   curTxn : List (String × Nat) := []          -- client ↦ start ts of its open transaction
   pending : List Pending := []
@@ -35,6 +36,8 @@ structure JState where
   inserted : List (Nat × Bytes) := []         -- (startTS, key) written as insert
   pessLocked : List (Nat × Bytes) := []       -- (startTS, key) locked by LockKeys (pessimistic)
   commitPointLost : List Nat := []            -- start ts of txns with a commit-point RPC whose outcome the client could not learn
+  lossy : List Nat := []                      -- start ts of txns with any dropped / lost request (C06 is conditional on none)
+  crashed : List String := []                 -- crashed clients
   deriving Repr
 
 def splitArrow (w : List String) : List String × List String :=
@@ -105,7 +108,31 @@ def evsOfRpc (kind client cls : String) (cmd ans : List String) : List Ev :=
     | _ => []
   main ++ locks
 
-def runMon (m : MState) (evs : List Ev) : Except String MState := evs.foldlM Monitor.step m
+/-- start ts carried by a command (for bookkeeping of lost requests) -/
+def startTSOf (cmd : List String) : Option Nat :=
+  match cmd with
+  | "prewrite" :: _ :: st :: _ => st.toNat?
+  | "plock" :: _ :: st :: _ => st.toNat?
+  | ["commit", _, st, _] => st.toNat?
+  | ["rollback", _, st] => st.toNat?
+  | "prollback" :: _ :: _ :: _ :: st :: _ => st.toNat?
+  | "heartbeat" :: _ :: st :: _ => st.toNat?
+  | _ => none
+
+/-- the transaction whose commit point this request can move: a commit, or a prewrite under async commit / 1PC -/
+def commitPointOf (cmd : List String) : List Nat :=
+  match cmd with
+  | ["commit", _, st, _] => st.toNat?.toList
+  | "prewrite" :: _ :: st :: rest => if rest.contains "async=1" || rest.contains "onepc=1" then st.toNat?.toList else []
+  | _ => []
+
+/-- run the monitor over the events of one trace line; after a rejected event the state still advances
+    (`applyEv`), so that one violation is reported once and does not cascade -/
+def runMon (m : MState) (evs : List Ev) : MState × Option String :=
+  evs.foldl (fun (acc : MState × Option String) ev =>
+    match Monitor.step acc.1 ev with
+    | .ok m' => (m', acc.2)
+    | .error e => (applyEv acc.1 ev, acc.2.orElse fun _ => some e)) (m, none)
 
 /-- pairs `k=v,k=v` of an API result -/
 def parseKVs (s : String) : List (Bytes × Bytes) :=
@@ -165,6 +192,9 @@ def toldCheck (j : JState) : Option String :=
       | .mixed _ => ((j.store.kv.flatMap fun (_, e) => e.writes.filter fun w => w.startTS == st && w.vt != .rollback).head?).map (·.commitTS)
       | _ => none
     match what.splitOn " " with
+    | ["ok", "0"] =>
+      -- Commit of a transaction without mutations: nothing to commit, and nothing of it may be in the store
+      if o == .none then none else some s!"C03 Commit of {st} answered success without a commit ts but the store shows {repr o}"
     | ["ok", c] =>
       if committedAt == c.toNat? && committedAt.isSome then none
       else some s!"C03 Commit of {st} answered success at {c} but the store shows {repr o}"
@@ -180,40 +210,47 @@ def firstSome (l : List (Option String)) : Option String := l.findSome? id
 def step (j : JState) (line : String) : JState × String :=
   match words line with
   | ["reset"] => ({}, "ok")
+  | ["reset", "mock"] => ({}, "ok")
+  | ["reset", "full"] => ({ full := some {} }, "ok")
   | ["tso", client, ts] =>
     match ts.toNat? with
     | some ts =>
-      match Monitor.step j.mon (.tso client ts) with
-      | .ok m => ({ j with mon := m }, "ok")
-      | .error e => (j, s!"FAIL C04 {e}")
+      match runMon j.mon [.tso client ts] with
+      | (m, none) => ({ j with mon := m }, "ok")
+      | (m, some e) => ({ j with mon := m }, s!"FAIL C04 {e}")
     | none => (j, "MISMATCH malformed-event")
   | "norpc" :: _id :: client :: cls :: cmd =>
     let evs := evsOfRpc "norpc" client cls cmd []
-    let lostCommit : List Nat := match cmd with
-      | ["commit", _, st, _] => if cls.startsWith "regionerr" then [] else (st.toNat?.toList)
-      | _ => []
+    let definite := cls.startsWith "regionerr"
+    -- commit-point requests whose outcome the client cannot learn: the primary commit, and under async commit / 1PC
+    -- every prewrite (C03)
+    let lostCommit : List Nat := if definite then [] else commitPointOf cmd
+    let lossy : List Nat := if definite then [] else (startTSOf cmd).toList
     match runMon j.mon evs with
-    | .ok m => ({ j with mon := m, commitPointLost := j.commitPointLost ++ lostCommit }, "ok")
-    | .error e => (j, s!"FAIL C04 {e}")
+    | (m, none) => ({ j with mon := m, commitPointLost := j.commitPointLost ++ lostCommit, lossy := j.lossy ++ lossy }, "ok")
+    | (m, some e) => ({ j with mon := m }, s!"FAIL C04 {e}")
   | kind :: _id :: client :: rs :: re :: rest =>
     if kind == "rpc" || kind == "lost" then
       let (cmd, ans) := splitArrow rest
       match hx rs, hx re with
       | some rs, some re =>
-        match rpcExec j.store rs re cmd with
+        let stepped : Option (Store × Option FStore × String) :=
+          match j.full with
+          | some f => (frpcExec f rs re cmd).map fun (f', a) => (f'.base, some f', a)
+          | none => (rpcExec j.store rs re cmd).map fun (s', a) => (s', none, a)
+        match stepped with
         | none => (j, "MISMATCH malformed-event")
-        | some (s', modelAns) =>
+        | some (s', f', modelAns) =>
           let rec_ := " ".intercalate ans
-          let j1 := { j with store := s' }
-          let lostCommit : List Nat := match cmd with
-            | ["commit", _, st, _] => if kind == "lost" then st.toNat?.toList else []
-            | _ => []
-          let j1 := { j1 with commitPointLost := j1.commitPointLost ++ lostCommit }
+          let j1 := { j with store := s', full := f' }
+          let lostCommit : List Nat := if kind == "lost" then commitPointOf cmd else []
+          let lossy : List Nat := if kind == "lost" then (startTSOf cmd).toList else []
+          let j1 := { j1 with commitPointLost := j1.commitPointLost ++ lostCommit, lossy := j1.lossy ++ lossy }
           if !answersAgree (cmd.headD "") modelAns rec_ then (j1, s!"MISMATCH store-answer model: {modelAns}")
           else
             match runMon j1.mon (evsOfRpc kind client "" cmd ans) with
-            | .ok m => ({ j1 with mon := m }, "ok")
-            | .error e => (j1, s!"FAIL C04 {e}")
+            | (m, none) => ({ j1 with mon := m }, "ok")
+            | (m, some e) => ({ j1 with mon := m }, s!"FAIL C04 {e}")
       | _, _ => (j, "MISMATCH malformed-event")
     else if kind == "api" then
       -- api <client> <call#> begin <call> <args…> | api <client> <call#> end <result…>
@@ -226,9 +263,9 @@ def step (j : JState) (line : String) : JState × String :=
         let p : Pending := { client := client', callNo := callNo, call := tail.headD "", args := tail.drop 1 }
         let j1 := { j with pending := p :: j.pending.filter (·.callNo != callNo) }
         if p.call == "commit" then
-          match Monitor.step j1.mon (.commitCalled client' (curOf j1 client')) with
-          | .ok m => ({ j1 with mon := m }, "ok")
-          | .error e => (j1, s!"FAIL C04 {e}")
+          match runMon j1.mon [.commitCalled client' (curOf j1 client')] with
+          | (m, none) => ({ j1 with mon := m }, "ok")
+          | (m, some e) => ({ j1 with mon := m }, s!"FAIL C04 {e}")
         else (j1, "ok")
       else
         match j.pending.find? (·.callNo == callNo) with
@@ -239,8 +276,8 @@ def step (j : JState) (line : String) : JState × String :=
           let okRes := tail.headD "" == "ok"
           let monEv (j : JState) (evs : List Ev) (extra : Option String) : JState × String :=
             match runMon j.mon evs with
-            | .ok m => ({ j with mon := m }, match extra with | some f => s!"FAIL {f}" | none => "ok")
-            | .error e => (j, s!"FAIL C04 {e}")
+            | (m, none) => ({ j with mon := m }, match extra with | some f => s!"FAIL {f}" | none => "ok")
+            | (m, some e) => ({ j with mon := m }, s!"FAIL C04 {e}")
           match p.call, p.args with
           | "begin", pess :: _ =>
             match (tail.headD "").toNat? with
@@ -283,12 +320,23 @@ def step (j : JState) (line : String) : JState × String :=
             match hx k with
             | some k => if okRes then monEv { j1 with ownWrites := (st, k) :: j1.ownWrites, inserted := j1.inserted.filter (· != (st, k)) } [.bufDelete p.client st k] none else (j1, "ok")
             | none => (j1, "ok")
-          | "lock", ks :: _ =>
+          | "lock", ks :: flags =>
             match parseHexList ks with
             | some ks =>
-              if okRes then monEv { j1 with pessLocked := ks.map (fun k => (st, k)) ++ j1.pessLocked } [.bufLock p.client st ks] none
+              if okRes then
+                -- lock-only-if-exists (flag e): a key reported as not found is NOT locked
+                let onlyIfExists := (flags.headD "").toList.contains 'e'
+                let got := parseKVs (tail.getD 1 "-")
+                let absent (k : Bytes) : Bool := (tail.getD 1 "-").splitOn "," |>.any fun p => p == hexOrTilde k ++ "=~"
+                let _ := got
+                let locked := if onlyIfExists then ks.filter (fun k => !absent k) else ks
+                monEv { j1 with pessLocked := locked.map (fun k => (st, k)) ++ j1.pessLocked } [.bufLock p.client st locked] none
               else (j1, "ok")
             | none => (j1, "ok")
+          | "aggstart", _ => monEv j1 [.relaxLocks p.client st] none
+          | "aggretry", _ => monEv j1 [.relaxLocks p.client st] none
+          | "aggcancel", _ => monEv j1 [.relaxLocks p.client st] none
+          | "aggdone", _ => monEv j1 [.relaxLocks p.client st] none
           | "commit", _ =>
             let what := " ".intercalate tail
             let j2 := { j1 with told := (st, what) :: j1.told }
@@ -301,6 +349,7 @@ def step (j : JState) (line : String) : JState × String :=
           | "rollback", _ => monEv j1 [.ended p.client st] none
           | _, _ => (j1, "ok")
     else (j, "ok")
+  | ["crash", client] => ({ j with crashed := client :: j.crashed }, "ok")
   | ["quiesce"] =>
     match firstSome [siReads j, wwCheck j, insertCheck j, atomicAll j, toldCheck j] with
     | some f => (j, s!"FAIL {f}")
@@ -316,8 +365,11 @@ def step (j : JState) (line : String) : JState × String :=
     if modelLocks != ls then (j, s!"MISMATCH locks model: {modelLocks}")
     else
       -- C06: no lock of a transaction whose owner saw it end
+      -- (the property is conditional on no request of the transaction having been lost and its client being alive)
       let bad := (scanLock j.store [] [] maxU64).find? fun (_, _, t) =>
-        match j.mon.find t with | some tx => tx.ended | none => false
+        match j.mon.find t with
+        | some tx => tx.ended && !j.lossy.contains t && !j.crashed.contains tx.client
+        | none => false
       match bad with
       | some (k, _, t) => (j, s!"FAIL C06 lock of finished transaction {t} left on {hexOrTilde k}")
       | none => (j, "ok")
